@@ -47,9 +47,23 @@ def c10a(ctx):
         if len(pk) != 1:
             ctx.fail(o, Site(b, 0, 0), "anchor missing: heap peek")
         else:
-            r = b.reachable([cons[0].node["t"]], removed_nodes=[incs[0].bb])
+            r = b.reachable([pops[0].node["t"]], removed_nodes=[incs[0].bb])
             if pk[0].bb in r:
                 ctx.fail(o, incs[0], "the loop can test the next pending batch without having advanced expected_epoch")
+    # a logical batch is listed for the after-commit (un-pin) notification only once its serialized writes sit in the physical
+    # batch that the next flush commits: consume < push, and no flush between taking the task and consuming its buffer
+    o3 = ctx.ob("C10.a", "process_pending_commits/consumed-before-listed-for-notification", "K1",
+                "consume_serialization_buffer precedes the push onto processed_logical_batch and every flush of the same iteration")
+    fl = b.calls_to(r"CurrentBatch::<Db>::flush$")
+    o3.sites = 1 + len(fl)
+    if not b.site_dominates(cons[0], push[0]):
+        ctx.fail(o3, push[0], "a logical batch is listed for after-commit notification before its writes were moved into the physical batch: a flush in between "
+                 "un-pins its cache entries while its data is still uncommitted (evicted, then read back stale from the store)")
+    for f_ in fl:
+        r2 = b.reachable([pops[0].node["t"]], removed_nodes=[cons[0].bb])
+        if f_.bb in r2 and not b.site_dominates(cons[0], f_):
+            ctx.fail(o3, f_, "the physical batch can be flushed between taking a task off the heap and consuming its buffer: the task's logical batch is notified as committed "
+                     "although its writes go into the NEXT physical batch")
     # the consumed buffer and the pushed batch belong to the popped task
     for s, idx in ((cons[0], 1), (push[0], 1)):
         if not any(x.kind == "call" and x.site == pops[0] for x in df.origins_of_operand(b, s.node["args"][idx])):
